@@ -68,6 +68,7 @@ def run(case):
     n_max = min(len(events), T - 1)
     if n_max < 1:
         raise Skip()
+    n_max = min(n_max, case.get('cap_parts', n_max))
     n = 1 + case['n_parts'] % n_max
     if case.get('prefer_multi') and n_max >= 2:
         n = 2 + case['n_parts'] % (n_max - 1)
@@ -177,16 +178,45 @@ def run(case):
 @st.composite
 def split_cases(draw, tier):
     c = draw(c03.histories(max_atoms=4, max_frames=60 if tier == 'quick' else 200, max_sites=5))
-    if draw(st.booleans()):
+    mode = draw(st.sampled_from(['as-drawn', 'inner-equals-outer', 'never-inner']))
+    if mode == 'inner-equals-outer':
         c['inner'] = c['states']
+    elif mode == 'never-inner':  # every arrival is only a candidate jump, so the minimal residence decides
+        c['inner'] = (np.array(c['states']) * 0 - 1).tolist()
     c['n_parts'] = draw(st.integers(0, 40))
     c['prefer_multi'] = draw(st.sampled_from([True, True, True, False]))
     c['residences'] = draw(st.sampled_from([[0], [0, 2], [0, 5], [1, 8]]))
     return c
 
 
+@st.composite
+def jump_split_cases(draw, tier):
+    """histories tuned so that the minimal residence matters: arrivals are only candidates (never inner),
+    short visits alternate with long ones, few parts so that every part holds jumps"""
+    n_atoms = draw(st.integers(1, 3))
+    n_sites = draw(st.integers(2, 4))
+    T = draw(st.integers(30, 90 if tier == 'quick' else 200))
+    res = draw(st.sampled_from([2, 3, 5, 8]))
+    cols = []
+    for _ in range(n_atoms):
+        col, last = [], -1
+        while len(col) < T:
+            s = draw(st.integers(0, n_sites - 2))
+            s = s + 1 if s >= last and last >= 0 else s
+            last = s
+            col.extend([s] * draw(st.sampled_from([1, 2, res - 1, res, res + 1, 3 * res])))
+            col.extend([-1] * draw(st.sampled_from([0, 1, 1, 2])))
+        cols.append(col[:T])
+    states = np.array(cols).T
+    return {'states': states.tolist(), 'inner': (states * 0 - 1).tolist(), 'n_parts': draw(st.integers(0, 2)), 'prefer_multi': draw(st.booleans()),
+            'residences': [0, res], 'cap_parts': 3}
+
+
 SUBS = [
     Sub(name='splits', kind='hyp', run=run, strategy=split_cases,
         rule='1-4 atoms x 2-60 (200) frames x <=5 sites; n_parts in [1, min(#events, frames-1)]; Transitions.split, Trajectory.split (equal or not), Jumps.split and rates for minimal residences 0..8',
         n={'quick': 200, 'thorough': 3500}, shards={'quick': 10, 'thorough': 16}),
+    Sub(name='jump-splits', kind='hyp', run=run, strategy=jump_split_cases,
+        rule='1-3 atoms x 30-90 (200) frames, arrivals never inner, visits of length 1, 2, r-1, r, r+1, 3r for minimal residence r in {2,3,5,8}, 1-3 parts: part jumps must be jumps of the whole',
+        n={'quick': 100, 'thorough': 2000}, shards={'quick': 6, 'thorough': 16}),
 ]
